@@ -122,12 +122,38 @@ func runC14(c *kernel.Ctx) {
 	steps := t.Range(8, 60)
 	restarts := 0
 	issuer := 0 // which broker receives the keyban requests
+	partitioned := false
+	heal := func() {
+		if !partitioned {
+			return
+		}
+		cl.Net.Block(cl.Name(0), cl.Name(1), false)
+		partitioned = false
+		c.Logf("heal b0|b1")
+		// emitter's own join loop brings the link back; the complete state travels on link-up and with the periodic gossip
+		for i := 0; i < 4; i++ {
+			for b := 0; b < 2; b++ {
+				if cl.Brokers[b] != nil {
+					w.client(b).Send(mqttc.Ping())
+				}
+			}
+			world.Settle()
+			cl.AdvanceNet(11 * time.Second)
+			cl.Drain(2000)
+			for b := 0; b < 2; b++ {
+				if w.cli[b] != nil {
+					w.cli[b].Recv()
+				}
+			}
+		}
+	}
 	for s := 0; s < steps && !t.Exhausted(); s++ {
 		c.Step()
 		c.State(fmt.Sprintf("banned=%v known1=%v issuer=%d restarts=%d", w.banned, w.known1, issuer, restarts))
 		k := t.Choose(nk)
 		switch op := t.Choose(20); {
 		case op < 2 && issuer == 0: // the requests move to the other broker (only once everything has been delivered)
+			heal()
 			cl.Drain(2000)
 			copy(w.known1, w.banned)
 			issuer = 1
@@ -136,6 +162,9 @@ func runC14(c *kernel.Ctx) {
 			ban := t.Chance(1, 2)
 			if t.Chance(2, 3) {
 				ban = !w.banned[k] // mostly real toggles
+			}
+			if issuer == 1 {
+				heal()
 			}
 			world.Advance(c, time.Duration(t.Range(1, 50))*time.Microsecond)
 			r, _ := world.Request(c, w.client(issuer), "keyban", map[string]any{"secret": lic.Master, "target": w.keys[k], "banned": ban})
@@ -162,7 +191,16 @@ func runC14(c *kernel.Ctx) {
 			ok := w.use(1, k)
 			c.Logf("use k%d on b1 (may be stale) -> accepted=%v", k, ok)
 			c.Probe("lookup-on-second-broker-before-merge")
+		case op < 14 && !partitioned && issuer == 0 && restarts < 4: // the link between the brokers is cut for a while: broker 1 misses what is broadcast meanwhile
+			cl.Drain(2000)
+			copy(w.known1, w.banned)
+			cl.Latency()
+			cl.Net.Block(cl.Name(0), cl.Name(1), true)
+			partitioned = true
+			c.Fault("partition")
+			c.Logf("partition b0|b1")
 		case op < 15: // deliver everything: broker 1 must now agree
+			heal()
 			cl.Drain(2000)
 			copy(w.known1, w.banned)
 			for i := range w.keys {
@@ -170,6 +208,20 @@ func runC14(c *kernel.Ctx) {
 			}
 		case op < 18:
 			d := []time.Duration{time.Microsecond, time.Second, 59 * time.Second, 61 * time.Second}[t.Choose(4)]
+			if partitioned && t.Chance(1, 2) {
+				// the outage lasts: minutes pass, in steps that keep the clients alive
+				for n := t.Range(2, 6); n > 0; n-- {
+					for b := 0; b < 2; b++ {
+						w.client(b).Send(mqttc.Ping())
+					}
+					world.Settle()
+					cl.AdvanceNet(59 * time.Second)
+					for b := 0; b < 2; b++ {
+						w.client(b).Recv()
+					}
+				}
+				c.Logf("minutes pass during the partition")
+			}
 			if d >= time.Second {
 				for b := 0; b < 2; b++ {
 					w.client(b).Send(mqttc.Ping())
@@ -185,6 +237,7 @@ func runC14(c *kernel.Ctx) {
 			if restarts >= 4 {
 				break
 			}
+			heal()
 			restarts++
 			if t.Chance(1, 2) {
 				cl.Crash(0)
@@ -205,6 +258,7 @@ func runC14(c *kernel.Ctx) {
 		}
 	}
 	// finally: deliver everything, both brokers must agree with the acknowledgements
+	heal()
 	cl.Drain(2000)
 	cl.AdvanceNet(31 * time.Second)
 	cl.Drain(2000)
